@@ -271,13 +271,36 @@ def _comp_bound(node) -> Set[int]:
     return out
 
 
+_MUTATORS = {'append', 'extend', 'add', 'update', 'pop', 'remove', 'insert', 'sort', 'reverse', 'clear', 'setdefault', 'discard', 'popitem',
+             'appendleft', 'popleft', 'seek', 'write', 'readline', 'read'}
+
+
+def _root(e):
+    while isinstance(e, (ast.Attribute, ast.Subscript)):
+        e = e.value
+    return e.id if isinstance(e, ast.Name) else None
+
+
 def _stores_in(stmts) -> Set[str]:
+    """names whose VALUE may change while stmts run: rebinding, attribute / item stores and mutator-method calls rooted at the name"""
     out = set()
     for s in stmts:
         cb = _comp_bound(s)
         for n in ast.walk(s):
             if isinstance(n, ast.Name) and isinstance(n.ctx, (ast.Store, ast.Del)) and id(n) not in cb:
                 out.add(n.id)
+            elif isinstance(n, (ast.Attribute, ast.Subscript)) and isinstance(n.ctx, (ast.Store, ast.Del)):
+                r = _root(n)
+                if r:
+                    out.add(r)
+            elif isinstance(n, ast.Call) and isinstance(n.func, ast.Attribute) and n.func.attr in _MUTATORS:
+                r = _root(n.func.value)
+                if r:
+                    out.add(r)
+            elif isinstance(n, ast.AugAssign):
+                r = _root(n.target)
+                if r:
+                    out.add(r)
     return out
 
 
@@ -290,7 +313,7 @@ def _free_reads(v) -> Set[str]:
     return {x.id for x in ast.walk(v) if isinstance(x, ast.Name)} - bound
 
 
-def expand_names(fn_node, stmt, expr, depth=3, chains=None, allow_calls=()):
+def expand_names(fn_node, stmt, expr, depth=3, chains=None, allow_calls=(), keep=()):
     """expr with local names replaced by their nearest simple definitions (slices, attributes, names, calls of
     pure-looking methods); used to compare expressions written through different intermediate locals.
     A definition is substituted only when none of the names it reads is rebound between the definition and the use, and the
@@ -300,7 +323,7 @@ def expand_names(fn_node, stmt, expr, depth=3, chains=None, allow_calls=()):
 
     class R(ast.NodeTransformer):
         def visit_Name(self, n):
-            if isinstance(n.ctx, ast.Load) and depth > 0:
+            if isinstance(n.ctx, ast.Load) and depth > 0 and n.id not in keep:
                 r = nearest_def_stmt(fn_node, stmt, n.id, chains)
                 if r is None:
                     return n
@@ -309,9 +332,9 @@ def expand_names(fn_node, stmt, expr, depth=3, chains=None, allow_calls=()):
                 if isinstance(v, (ast.Subscript, ast.Attribute, ast.Name, ast.Call, ast.BinOp, ast.Compare, ast.BoolOp, ast.IfExp, ast.Constant, ast.UnaryOp, ast.JoinedStr)) \
                         and _expandable(v, allow_calls):
                     reads = _free_reads(v)
-                    if reads & (_stores_in(between) - {n.id}) or (n.id in reads and n.id in _stores_in(between)):
-                        return n
-                    return expand_names(fn_node, d, _copy.deepcopy(v), depth - 1, chains, allow_calls)
+                    if (reads | {n.id}) & _stores_in(between):
+                        return n          # an operand, or the object bound to the name itself, may have changed in between
+                    return expand_names(fn_node, d, _copy.deepcopy(v), depth - 1, chains, allow_calls, keep)
             return n
     return R().visit(_copy.deepcopy(expr))
 
@@ -595,3 +618,52 @@ def tt_equal(e1, e2, max_atoms=16):
         if _bool_eval(e1, asg) != _bool_eval(e2, asg):
             return False, {k: v for k, v in asg.items()}
     return True, None
+
+
+def emit_condition(fn_node, stmts, is_emit: Callable[[ast.stmt], bool], chains=None, allow_calls=()):
+    """(emit, fall): boolean expressions (tests expanded to their definitions) for "some statement satisfying is_emit is executed
+    while running stmts once" and "control falls off the end of stmts".  if/else, continue / break / return / raise are
+    understood; any other compound statement containing an emit makes the result None."""
+    chains = chains or block_chains(fn_node)
+    T, Fa = ast.Constant(True), ast.Constant(False)
+
+    def conj(a, b):
+        if isinstance(a, ast.Constant):
+            return b if a.value else Fa
+        if isinstance(b, ast.Constant):
+            return a if b.value else Fa
+        return ast.BoolOp(op=ast.And(), values=[a, b])
+
+    def disj(a, b):
+        if isinstance(a, ast.Constant):
+            return T if a.value else b
+        if isinstance(b, ast.Constant):
+            return T if b.value else a
+        return ast.BoolOp(op=ast.Or(), values=[a, b])
+
+    def neg(a):
+        if isinstance(a, ast.Constant):
+            return Fa if a.value else T
+        return ast.UnaryOp(op=ast.Not(), operand=a)
+
+    def run(block):
+        emit, fall = Fa, T
+        for st in block:
+            if is_emit(st):
+                emit = disj(emit, fall)
+                continue
+            if isinstance(st, (ast.Continue, ast.Break, ast.Return, ast.Raise)):
+                return emit, Fa
+            if isinstance(st, ast.If):
+                t = expand_names(fn_node, st, st.test, depth=4, chains=chains, allow_calls=allow_calls)
+                r1, r2 = run(st.body), run(st.orelse)
+                if r1 is None or r2 is None:
+                    return None
+                (e1, f1), (e2, f2) = r1, r2
+                emit = disj(emit, conj(fall, disj(conj(t, e1), conj(neg(t), e2))))
+                fall = conj(fall, disj(conj(t, f1), conj(neg(t), f2)))
+                continue
+            if any(isinstance(x, ast.stmt) and x is not st and is_emit(x) for x in ast.walk(st)):
+                return None
+        return emit, fall
+    return run(stmts)
